@@ -149,11 +149,13 @@ class DiffEqSolver:
                  ddrFactor=lambda r: -1, drFactor=lambda r: 0,
                  rFactor=lambda r: 0, ddThetaFactor=lambda r: -1,
                  rhoFactor=lambda r: 1):
-        ddrFactor = np.vectorize(ddrFactor)
-        drFactor = np.vectorize(drFactor)
-        rFactor = np.vectorize(rFactor)
-        ddThetaFactor = np.vectorize(ddThetaFactor)
-        rhoFactor = np.vectorize(rhoFactor)
+        # (without otypes the type of the result is deduced from the first
+        # value: a function returning an int there would be truncated)
+        ddrFactor = np.vectorize(ddrFactor, otypes=[float])
+        drFactor = np.vectorize(drFactor, otypes=[float])
+        rFactor = np.vectorize(rFactor, otypes=[float])
+        ddThetaFactor = np.vectorize(ddThetaFactor, otypes=[float])
+        rhoFactor = np.vectorize(rhoFactor, otypes=[float])
         # The factor in front of the right hand side is also required when
         # the right hand side is provided as a function
         self._rhoFactor = rhoFactor
